@@ -906,18 +906,32 @@ def _r2(ctx):
                  isinstance(s_.body[-1], ast.Expr) and isinstance(s_.body[-1].value, ast.Call) and
                  isinstance(s_.body[-1].value.func, ast.Attribute) and s_.body[-1].value.func.attr == "append" and
                  len(s_.body[-1].value.args) == 1]
-        if len(loops) != 1:
+        comps = [c_ for c_ in ast.walk(f.node) if isinstance(c_, (ast.ListComp, ast.GeneratorExp)) and len(c_.generators) == 1 and
+                 isinstance(c_.generators[0].target, ast.Name) and not c_.generators[0].ifs and isinstance(c_.elt, ast.Call) and
+                 norm_text(c_.generators[0].iter).endswith(".index.names")] if not loops else []
+        if len(loops) != 1 and len(comps) != 1:
             raise AnalysisError("_shift_or_scale: the per-level transformation (closure mapped over the level names / loop that "
                                 "appends the new level) was not found")
-        lp = loops[0]
-        fn = ast.FunctionDef(name="__level__", args=ast.arguments(posonlyargs=[], args=[ast.arg(arg=lp.target.id)], kwonlyargs=[],
+        if comps:
+            # [helper(<level of name>, func, operand, skip) for name in obj.index.names]: the element expression is the transformation
+            cp = comps[0]
+            fn = ast.FunctionDef(name="__level__", args=ast.arguments(posonlyargs=[], args=[ast.arg(arg=cp.generators[0].target.id)],
+                                                                    kwonlyargs=[], kw_defaults=[], defaults=[]),
+                                 body=[ast.Return(value=cp.elt)], decorator_list=[], lineno=cp.lineno, col_offset=0)
+            ast.fix_missing_locations(fn)
+            tfi = copy.copy(f)
+            tfi.node = fn
+            where = cp
+        lp = loops[0] if loops else None
+        fn = fn if comps else ast.FunctionDef(name="__level__", args=ast.arguments(posonlyargs=[], args=[ast.arg(arg=lp.target.id)], kwonlyargs=[],
                                                                 kw_defaults=[], defaults=[]),
                              body=list(lp.body[:-1]) + [ast.Return(value=lp.body[-1].value.args[0])], decorator_list=[],
                              lineno=lp.lineno, col_offset=0)
-        ast.fix_missing_locations(fn)
-        tfi = copy.copy(fl)
-        tfi.node = fn
-        where = lp
+        if not comps:
+            ast.fix_missing_locations(fn)
+            tfi = copy.copy(fl)
+            tfi.node = fn
+            where = lp
     # names bound once in the enclosing function to `<param> or <literal>` stand for the parameter
     alias = {}
     for s_ in walk_function(f.node):
